@@ -41,6 +41,9 @@ pub fn run_program_bounded(p: &Program, t: &mut Tape, st: &mut Stats, prefix: &s
         classes.insert("mixed-generic-and-specific-end");
     }
     let mut m = Model::new(p, max_steps);
+    if max_steps >= 30_000 {
+        m.max_call_depth = 450;
+    }
     match m.run() {
         Ok(()) => {}
         Err(Stop::Steps) => return Verdict::Discard("model step bound exceeded"),
